@@ -17,6 +17,19 @@ def c11(ck):
     ck.replay_stage("pairs-second-process", "MC_C11", "MC_C11_quick.cfg", tlc_workers=8, harness_workers=6, timeout=3000)
 
 
+def c12(ck):
+    ck.rule = ("values: 12 scalars (nil, booleans, integers, floats, empty / blank / numeric-looking strings), every array of <= 2 and "
+               "object over keys {a, b} of them (depth 1), and the same constructors over a representative slice (quick) or all (thorough) "
+               "of depth 1 (depth 2), plus a date and a date-time; each observed through Value, &Value, ValueCow owned / borrowed, "
+               "Option, to_value(), into_owned, serde to_value / from_value, serde_json text round trip, Vec / HashMap / BTreeMap, "
+               "to_object and JSON -> Object, with equality against 13 probes; 192 instances of a struct family deriving Serialize, "
+               "Deserialize, ObjectView, ValueView compared with their serde twin in the API and in a template; 11 integer spellings "
+               "across the i64 / u64 boundaries through 5 conversion routes; non-trivial = not a bare scalar")
+    ck.assumptions = ["printing a multi-key object is unspecified; its other observations are checked",
+                      "the derive macros are exercised on the struct family the harness defines (named-field structs, which is all they support)"]
+    ck.replay_stage("views", "MC_C12", "MC_C12_quick.cfg" if ck.tier == "quick" else "MC_C12_thorough.cfg", tlc_workers=8, timeout=3400)
+
+
 def c13(ck):
     ck.rule = ("every string of length <= 3 (thorough 4) over {a, B, space, LF, tab, comma, <, e-acute, U+0301, emoji} x every filter "
                "link: 11 argument-free filters; append/prepend/remove/remove_first/split/default x every argument string of length "
@@ -261,7 +274,7 @@ def c20(ck):
     ck.trace_stage("realthreads", ["threads", "--runs", runs], "Trace_Threads", "Trace_Threads.cfg", heap="8g", timeout=3000)
 
 
-PROPS = {"C01": c01, "C03": c03, "C04": c04, "C06": c06, "C07": c07, "C08": c08, "C09": c09, "C10": c10, "C11": c11, "C13": c13, "C14": c14, "C15": c15, "C16": c16, "C17": c17, "C19": c19, "C20": c20, "C05": c05, "C18": c18}
+PROPS = {"C01": c01, "C03": c03, "C04": c04, "C06": c06, "C07": c07, "C08": c08, "C09": c09, "C10": c10, "C11": c11, "C12": c12, "C13": c13, "C14": c14, "C15": c15, "C16": c16, "C17": c17, "C19": c19, "C20": c20, "C05": c05, "C18": c18}
 
 
 def replay_file(prop, path):
